@@ -50,7 +50,10 @@ constexpr auto tanh_check(T const x) noexcept -> T
 {
     return ( // NaN check
         is_nan(x) ? etl::numeric_limits<T>::quiet_NaN() :
-                  // indistinguishable from zero
+                  // +/- infinite
+            !is_finite(x) ? (x < T(0) ? -T(1) : T(1))
+                          :
+                          // indistinguishable from zero
             etl::numeric_limits<T>::epsilon() > abs(x) ? T(0)
                                                        :
                                                        // else
